@@ -6,7 +6,7 @@ from checks import lib
 from checks import C07shared as S
 
 PROPERTY = "C34"
-LEAN_MODULES = ["KafVerif.Props.C34", "KafVerif.Model.KafkaDriver"]
+LEAN_MODULES = ["KafVerif.Props.C34", "KafVerif.Model.KafkaDriver", "KafVerif.Model.KafkaAlloc"]
 OBLIGATIONS = [
     "KafVerif.C34.decodeSegment_iceberg_total",
     "KafVerif.C34.decodeSegment_sql_total",
@@ -14,6 +14,10 @@ OBLIGATIONS = [
     "KafVerif.C34.parseIndex_total",
     "KafVerif.C34.pitr_collect_total",
     "KafVerif.C34.pitr_plan_total",
+    "KafVerif.C34.decodeSegment_total_alloc",
+    "KafVerif.C34.parseIndex_total_alloc",
+    "KafVerif.C34.pitr_total_alloc",
+    "KafVerif.C34.icebergOld_total_alloc_unbounded",
     "KafVerif.C34.count_guard_is_widened",
     "KafVerif.C34.int32_product_guard_admits_unbounded_count",
     "KafVerif.C34.icebergOld_headerCount_panics",
@@ -23,6 +27,7 @@ OBLIGATIONS = [
 ]
 ASSUMPTIONS = [
     "Go make panics (or the runtime dies) exactly when the size is negative or exceeds the allocator limit `lim`; the theorems hold for every lim >= 112*len(input), i.e. no single allocation exceeds 112 bytes per input byte",
+    "total allocation: the theorems bound the SUM of the sizes of all make calls of one call (every allocation whose size an input field controls, plus the truncated-batch copy); what the Go runtime adds on top - size-class rounding, amortised append growth of the result slices, fixed-size objects per consumed record/entry (bytes.Reader, escaping temporaries, *IndexEntry, error values), BuildSegment's output buffers - is not modelled and is covered by the monitor's allowance RT_FACTOR/RT_PER_BYTE/RT_CONST",
     "bytes.Reader / io.ReadFull / binary.Read are modelled as consuming a list of unread bytes; slice expressions keep Go panic semantics",
     "topic/partition strings and the S3 download in front of decodeSegment are not modelled (glue)",
 ]
@@ -34,12 +39,52 @@ BUILDS = {
 LEVEL_TEXT = ("proof: for every byte string the modelled iceberg and sql decodeSegment/parseIndex and the PITR "
               "collectRecoverableBatches/buildRestorePlan return a value or an error (never panic) under an allocator that refuses "
               "anything above 112 bytes per input byte; tied to the code by correspondence on arbitrary and structured-adversarial bytes")
-LEVEL_NOTE = "total allocation (sum over all makes) is bounded by the monitor, per-allocation bound by the theorem"
+LEVEL_NOTE = ("per-allocation bound (112 bytes per input byte) and total-allocation bound (sum of all makes of one call: 154*len for "
+              "decodeSegment, 2*len / 1*len for parseIndex / ParseIndex, 3*len for collectRecoverableBatches) are theorems; the monitor "
+              "compares the measured Go allocation with these constants plus a stated runtime allowance")
 TECHNIQUE = "lean4-proof + differential correspondence (child-process Go harness under RLIMIT_AS) + allocation monitor"
 
-# allocation monitor: bytes allocated by one decoder call <= ALLOC_K * len(input) + ALLOC_C
-ALLOC_K = 600
-ALLOC_C = 16384
+# Allocation monitor.  The proved constants (a, b) with  sum-of-makes <= a*len(input) + b  are read from the Lean driver
+# (`allocbounds` prints the definitions the theorems KafVerif.C34.*_total_alloc are stated with).  The bytes one call
+# allocates as measured with runtime.MemStats must stay below
+#       RT_FACTOR * (a*len + b)  +  RT_PER_BYTE * len  +  RT_CONST
+# RT_FACTOR   : size-class rounding of each allocation (<= 1.25x) and amortised append growth, with margin;
+# RT_PER_BYTE : fixed-size runtime objects per consumed record / index entry / batch (bytes.Reader 48 B per >= 7-byte record,
+#               *IndexEntry + escaping temporaries ~ 48 B per 12-byte entry, result-slice growth 112 B per record, BuildSegment output);
+# RT_CONST    : per-call constants (error values, fmt state, first size classes).
+RT_FACTOR = 2
+RT_PER_BYTE = 64
+RT_CONST = 16384
+# kind of op -> which proved pair applies (scanrecs is the harness loop around the real scanRecord: the collect constants)
+BOUND_OF = {"dec": "decode", "didx": "didx", "pidx": "pidx", "collect": "collect", "scanrecs": "collect", "plan": "collect"}
+
+
+def parse_bounds(line):
+    """'bounds decode=154,0 pidx=1,0 ...' -> {'decode': (154, 0), ...}"""
+    t = line.split()
+    if not t or t[0] != "bounds":
+        return None
+    out = {}
+    for kvp in t[1:]:
+        k, _, v = kvp.partition("=")
+        a, _, b = v.partition(",")
+        out[k] = (int(a), int(b))
+    return out
+
+
+def proved_bound(bounds, kind, lens):
+    """a*len+b of the theorem that covers this op; lens = (segment-or-input length, index length or 0)."""
+    a, b = bounds[BOUND_OF[kind]]
+    v = a * lens[0] + b
+    if kind == "plan":
+        ai, bi = bounds["pidx"]
+        v += ai * lens[1] + bi
+    return v
+
+
+def alloc_limit(bounds, kind, lens):
+    return RT_FACTOR * proved_bound(bounds, kind, lens) + RT_PER_BYTE * (lens[0] + lens[1]) + RT_CONST
+
 
 HUGE = [2 ** 31 - 1, 2 ** 31, 2 ** 32 - 1, 2 ** 40, 2 ** 62, 2 ** 63 - 1]
 
@@ -309,23 +354,56 @@ def wrap_seg(body):
     return b"KAFS" + struct.pack(">HHqiqI", 1, 0, 0, 0, 0, 0) + body + struct.pack(">Iq", S.crc32c(body), 0) + b"END!"
 
 
+def large_inputs():
+    """Well-formed inputs large enough that the per-byte part of the allocation limit dominates its constant:
+    a segment dense with minimal 7-byte records (most runtime objects per input byte), one with 2 KB values, a 1000-entry index."""
+    dense = wrap_seg(b"".join(mk_batch(50, MIN_REC * 50, base=i * 50) for i in range(40)))
+    fat = wrap_seg(b"".join(mk_batch(2, rec(b"\x00\x00\x00\x01" + var(2048) + b"v" * 2048 + b"\x00") +
+                                     rec(b"\x00\x00\x02" + var(600) + b"k" * 600 + b"\x01\x00"), base=i * 2) for i in range(6)))
+    idx = b"IDX\x00" + struct.pack(">HIiH", 1, 1000, 1, 0) + b"".join(struct.pack(">qi", i * 50, 32 + i * 411) for i in range(1000))
+    # the largest lies the guards admit, on inputs of a few KB: record count = number of record bytes (112 bytes each), header
+    # count = number of bytes left in the record (40 bytes each) - the cases that make the proved 154*len tight-ish
+    lie_count = wrap_seg(mk_batch(4200, MIN_REC * 600))
+    lie_hdrs = wrap_seg(mk_batch(1, rec(b"\x00\x00\x00\x01\x01" + var(4000) + b"\x00" * 4000)))
+    # ... and a multiple of what the guards admit (rejected without allocating by the code as it is; a guard loosened by a
+    # constant factor would allocate k*112 resp. k*40 bytes per input byte here)
+    over = []
+    for k in (8, 64):
+        over.append(wrap_seg(mk_batch(4200 * k, MIN_REC * 600)))
+        over.append(wrap_seg(mk_batch(1, rec(b"\x00\x00\x00\x01\x01" + var(4000 * k) + b"\x00" * 4000))))
+    return [dense, fat, lie_count, lie_hdrs] + over, [idx]
+
+
+def overlap_probes():
+    """Objects shorter than header+footer (48 bytes) that nevertheless start with the header magic and end with the footer
+    magic: every size check that looks at the header and the footer separately accepts them."""
+    out = []
+    for n in (16, 20, 31, 32, 33, 40, 47, 48):
+        b = bytearray(n)
+        b[0:4] = b"KAFS"
+        b[4:6] = b"\x00\x01"
+        b[n - 4:n] = b"END!"
+        out.append(bytes(b))
+    return out
+
+
 def make_ops(segs, idxs, rng):
-    """(target, op, input_len) triples."""
+    """(target, op, (input_len, second_input_len)) triples; the second length is the index of a `plan` op, else 0."""
     out = []
     for s in segs:
         h = S.tokb(s)
-        out.append(("iceberg", "dec " + h, len(s)))
-        out.append(("sql", "dec " + h, len(s)))
-        out.append(("root", "scanrecs " + h, len(s)))
+        out.append(("iceberg", "dec " + h, (len(s), 0)))
+        out.append(("sql", "dec " + h, (len(s), 0)))
+        out.append(("root", "scanrecs " + h, (len(s), 0)))
         cut = rng.choice([0, 1, 1000, 1700000000000, 1700000000500, 2 ** 62, -1])
-        out.append(("root", "collect %d %s" % (cut, h), len(s)))
+        out.append(("root", "collect %d %s" % (cut, h), (len(s), 0)))
     for k, i in enumerate(idxs):
         h = S.tokb(i)
-        out.append(("iceberg", "didx " + h, len(i)))
-        out.append(("sql", "didx " + h, len(i)))
-        out.append(("root", "pidx " + h, len(i)))
+        out.append(("iceberg", "didx " + h, (len(i), 0)))
+        out.append(("sql", "didx " + h, (len(i), 0)))
+        out.append(("root", "pidx " + h, (len(i), 0)))
         s = segs[k % len(segs)]
-        out.append(("root", "plan %d %d %s %s" % (rng.choice([0, 1000, 1700000000500, 2 ** 62]), 1700000000123, S.tokb(s), h), len(s) + len(i)))
+        out.append(("root", "plan %d %d %s %s" % (rng.choice([0, 1000, 1700000000500, 2 ** 62]), 1700000000123, S.tokb(s), h), (len(s), len(i))))
     return out
 
 
@@ -333,12 +411,21 @@ def classify(line):
     return line.split(" ", 1)[0] if line else "crash"
 
 
-def evaluate(ck, triples, impl, allocs):
-    """Direct monitor: no panic, no crash, bounded allocation."""
+def op_lens(op):
+    """Input lengths of an op, from its hex arguments (used for replays and shrinking)."""
+    t = op.split(" ")
+    if t[0] == "plan":
+        return (len(S.unhex(t[3])), len(S.unhex(t[4])))
+    return (len(S.unhex(t[-1])), 0)
+
+
+def evaluate(ck, triples, impl, allocs, bounds):
+    """Direct monitor: no panic, no crash, bounded allocation (proved constants + runtime allowance)."""
     hits = []
-    for (target, op, n), line, a in zip(triples, impl, allocs):
+    for (target, op, lens), line, a in zip(triples, impl, allocs):
         cls = classify(line)
         kind = op.split(" ", 1)[0]
+        n = lens[0] + lens[1]
         fn = {"dec": "decodeSegment", "didx": "parseIndex", "scanrecs": "scanRecord", "collect": "collectRecoverableBatches",
               "plan": "buildRestorePlan", "pidx": "ParseIndex"}.get(kind, kind)
         if cls == "panic":
@@ -347,10 +434,22 @@ def evaluate(ck, triples, impl, allocs):
             continue
         elif cls == "crash":
             hits.append(("%s-%s-fatal" % (target, fn), "%s %s killed the process (fatal error / out of memory) on %d input bytes" % (target, fn, n), target, op))
-        elif a > ALLOC_K * n + ALLOC_C:
+        elif kind in BOUND_OF and a > alloc_limit(bounds, kind, lens):
             hits.append(("%s-%s-unbounded-allocation" % (target, fn),
-                         "%s %s allocated %d bytes for %d input bytes (bound %d*n+%d)" % (target, fn, a, n, ALLOC_K, ALLOC_C), target, op))
+                         "%s %s allocated %d bytes for %d input bytes (limit %d = %d*(proved %d) + %d*len + %d)"
+                         % (target, fn, a, n, alloc_limit(bounds, kind, lens), RT_FACTOR, proved_bound(bounds, kind, lens), RT_PER_BYTE, RT_CONST),
+                         target, op))
     return hits
+
+
+def split_malloc(lines):
+    """Model lines -> (lines without the ` #malloc=N` suffix, [N or None])."""
+    out, ms = [], []
+    for l in lines:
+        body, sep, m = l.partition(" #malloc=")
+        out.append(body)
+        ms.append(int(m) if sep and m.isdigit() else None)
+    return out, ms
 
 
 def run_all(ck, bins, triples, tag, model=True):
@@ -367,7 +466,7 @@ def run_all(ck, bins, triples, tag, model=True):
     return impl, allocs, mod
 
 
-def shrink_bytes(ck, bins, target, op, fp):
+def shrink_bytes(ck, bins, target, op, fp, bounds):
     """Shorten the hex argument of a failing op while the same fingerprint persists."""
     parts = op.split(" ")
     hexarg = parts[-1]
@@ -375,8 +474,8 @@ def shrink_bytes(ck, bins, target, op, fp):
 
     def fails(d):
         o = " ".join(parts[:-1] + [S.tokb(bytes(d))])
-        impl, al, _ = run_all(ck, bins, [(target, o, len(d))], "sh", model=False)
-        return any(h[0] == fp for h in evaluate(ck, [(target, o, len(d))], impl, al))
+        impl, al, _ = run_all(ck, bins, [(target, o, op_lens(o))], "sh", model=False)
+        return any(h[0] == fp for h in evaluate(ck, [(target, o, op_lens(o))], impl, al, bounds))
     budget = 25
     chunk = max(1, len(data) // 2)
     while chunk >= 1 and budget > 0:
@@ -414,39 +513,62 @@ def run(ck):
     segs, idxs = gen_inputs(ck, n, valid)
     psegs, pidxs = overflow_probes(ck.rng.fork(), 10 if ck.quick() else 60)
     ck.count("overflow_band_probes", len(psegs) + len(pidxs))
-    segs = [f() for _, f in FIXED] + psegs + segs
-    idxs = pidxs + idxs
+    lsegs, lidxs = large_inputs()
+    segs = [f() for _, f in FIXED] + overlap_probes() + lsegs + psegs + segs
+    idxs = lidxs + pidxs + idxs
     triples = make_ops(segs, idxs, ck.rng.fork())
     import glob, os
     for fn in sorted(glob.glob(os.path.join(lib.REPLAYS, "C34", "*.json"))):     # corpus first
         try:
             rep = json.load(open(fn))
-            triples.insert(0, (rep["target"], rep["op"], len(S.unhex(rep["op"].split(" ")[-1]))))
+            triples.insert(0, (rep["target"], rep["op"], op_lens(rep["op"])))
         except Exception as e:
             ck.notes.append("corpus file %s unreadable: %r" % (fn, e))
-    ck.partial = ("proved: no panic and every single allocation <= 112 bytes per input byte, for every byte string; "
-                  "not proved: a bound on the SUM of all allocations of one call (checked by the allocation monitor: "
-                  "<= %d*len+%d bytes measured with runtime.MemStats)" % (ALLOC_K, ALLOC_C))
+    bounds = get_bounds(ck)
+    if bounds is None:
+        return
+    ck.partial = ("proved for every byte string: no panic, every single allocation <= 112 bytes per input byte, and the SUM of all "
+                  "make calls of one call <= a*len+b (decodeSegment 154, parseIndex 2, ParseIndex 1, collectRecoverableBatches 3; the "
+                  "instrumented model is proved to return exactly the model's result); not covered by a theorem: what the Go "
+                  "runtime adds to these source-level allocations (size-class rounding, amortised append growth, fixed-size "
+                  "objects per record/entry, BuildSegment's output) - the monitor allows %d*(a*len+b) + %d*len + %d bytes as "
+                  "measured with runtime.MemStats" % (RT_FACTOR, RT_PER_BYTE, RT_CONST))
     impl, allocs, mod = run_all(ck, bins, triples, "q")
+    mod, mallocs = split_malloc(mod)
     worst = 0.0
-    for (target, op, ln), line, a in zip(triples, impl, allocs):
+    worst_kind = {}
+    for (target, op, lens), line, a, m in zip(triples, impl, allocs, mallocs):
         cls = classify(line)
-        ck.count("%s:%s" % (op.split(" ", 1)[0], cls))
-        nontrivial = not (cls == "err" and ln < 48)
+        kind = op.split(" ", 1)[0]
+        ln = lens[0] + lens[1]
+        ck.count("%s:%s" % (kind, cls))
         if ln:
             worst = max(worst, a / float(ln))
+            kk = "%s:%s" % (target, kind)
+            if ln >= 4096:
+                worst_kind[kk] = max(worst_kind.get(kk, 0.0), a / float(ln))
         ck.case((target, op), nontrivial=(cls == "ok" or ln >= 61), sample={"target": target, "op": op[:160], "impl": line[:120], "alloc": a})
         ck.cov["traces_validated_against_impl"] += 1
+        # the theorem instance, evaluated: bytes requested by the instrumented model <= a*len + b
+        if m is not None and kind in BOUND_OF and kind != "scanrecs":
+            ck.count("model_alloc_checked")
+            if m > proved_bound(bounds, kind, lens):
+                ck.broke("total-allocation theorem instance",
+                         "instrumented model requests %d bytes for %s (%s) but the proved bound is %d" % (m, kind, lens, proved_bound(bounds, kind, lens)))
     ck.cov["distribution"]["max_alloc_bytes_per_input_byte"] = round(worst, 1)
-    hits = evaluate(ck, triples, impl, allocs)
+    for kk, v in sorted(worst_kind.items()):
+        ck.cov["distribution"]["max_alloc_per_input_byte_on_inputs_over_4KiB:" + kk] = round(v, 2)
+    ck.cov["distribution"]["proved_alloc_bounds"] = " ".join("%s=%d*len+%d" % (k, v[0], v[1]) for k, v in sorted(bounds.items()))
+    hits = evaluate(ck, triples, impl, allocs, bounds)
     for fp, what, target, op in hits:
         small = op
         if fp not in [v["fingerprint"] for v in ck.violations] and len(ck.violations) < 6:
             try:
-                small = shrink_bytes(ck, bins, target, op, fp)
+                small = shrink_bytes(ck, bins, target, op, fp, bounds)
             except Exception:
                 small = op
-        ck.violation(fp, what, {"target": target, "op": small, "actual": what, "expected": "ok or err, allocation <= %d*len+%d" % (ALLOC_K, ALLOC_C)})
+        ck.violation(fp, what, {"target": target, "op": small, "actual": what,
+                                "expected": "ok or err, allocation <= %d*(proved a*len+b) + %d*len + %d" % (RT_FACTOR, RT_PER_BYTE, RT_CONST)})
     mod = [("skipped" if i < len(impl) and impl[i] == "skipped" else m) for i, m in enumerate(mod)]
     d = lib.first_diff(impl, mod)
     if d is not None:
@@ -456,16 +578,29 @@ def run(ck):
                  "op   : @%s %s\nimpl : %s\nmodel: %s" % (t[0] if t else None, t[1][:600] if t else None,
                                                           impl[d][:300] if d < len(impl) else None, mod[d][:300] if d < len(mod) else None))
         if not hits:
-            hunt(ck, bins, valid)
+            hunt(ck, bins, valid, bounds)
 
 
-def hunt(ck, bins, valid):
+def get_bounds(ck):
+    """The constants of KafVerif.C34.*_total_alloc, printed by the Lean driver from the definitions the theorems use."""
+    try:
+        out = S.run_model(ck, "C34", "root", ["allocbounds"], "bounds")
+        b = parse_bounds(out[0]) if out else None
+    except Exception as e:
+        b, out = None, [repr(e)]
+    if not b or any(k not in b for k in set(BOUND_OF.values()) | {"pidx"}):
+        ck.broke("proved allocation constants", "the Lean driver did not print the constants of the total-allocation theorems: %r" % (out[:1],))
+        return None
+    return b
+
+
+def hunt(ck, bins, valid, bounds):
     for rnd in range(5):
         segs, idxs = gen_inputs(ck, 300, valid)
         triples = make_ops(segs, idxs, ck.rng.fork())
         impl, allocs, _ = run_all(ck, bins, triples, "h%d" % rnd, model=False)
         ck.cov["evaluations"] += len(triples)
-        hits = evaluate(ck, triples, impl, allocs)
+        hits = evaluate(ck, triples, impl, allocs, bounds)
         if hits:
             fp, what, target, op = hits[0]
             ck.violation(fp, what, {"target": target, "op": op, "actual": what})
@@ -477,10 +612,13 @@ def replay(ck, path):
     bins = ck.build_all()
     if bins is None:
         return
-    t = [(rep["target"], rep["op"], len(S.unhex(rep["op"].split(" ")[-1])))]
+    bounds = get_bounds(ck)
+    if bounds is None:
+        return
+    t = [(rep["target"], rep["op"], op_lens(rep["op"]))]
     impl, allocs, _ = run_all(ck, bins, t, "rp", model=False)
     print("  @%s %s\n  -> %s alloc=%d" % (t[0][0], t[0][1][:200], impl[0][:200], allocs[0]))
     ck.case(t[0], sample={"op": t[0][1][:200], "impl": impl[0][:200]})
     ck.cov["distinct_nontrivial"] = max(ck.cov["distinct_nontrivial"], 2)
-    for fp, what, target, op in evaluate(ck, t, impl, allocs):
+    for fp, what, target, op in evaluate(ck, t, impl, allocs, bounds):
         ck.violation(fp, what, {"target": target, "op": op, "actual": what})
